@@ -12,6 +12,7 @@ pub mod c12;
 pub mod c13;
 pub mod c14;
 pub mod c17;
+pub mod c18;
 pub mod c19;
 pub mod c20;
 pub mod tcp;
@@ -37,6 +38,8 @@ pub fn dispatch(args: &Args, rep: &mut Report) -> bool {
         "c13" => c13::run(args, rep),
         "c14" => c14::run(args, rep),
         "c17" => c17::run(args, rep),
+        "c18" => c18::run(args, rep),
+        "c18child" => c18::child(args),
         "c19" => c19::run(args, rep),
         "c20" => c20::run(args, rep),
         _ => return false,
